@@ -1,9 +1,22 @@
 package internal
 
 import (
+	"fmt"
 	"io"
 	"os"
+	"path/filepath"
 )
+
+// CheckPlainName makes sure that a file name listed in a .dsc or .changes
+// is a plain name: the listed files live next to the control file, so a
+// name with a directory part ("../x", "/etc/passwd", "a/b") is never
+// legitimate and must not be followed.
+func CheckPlainName(name string) error {
+	if name == "" || name == "." || name == ".." || filepath.Base(name) != name {
+		return fmt.Errorf("Refusing to touch '%s': not a plain file name", name)
+	}
+	return nil
+}
 
 func Copy(source, dest string) error {
 	in, err := os.Open(source)
